@@ -32,7 +32,8 @@
 
 """
 
-from typing import Dict, FrozenSet, Sequence, Set, Tuple, Type, TypeVar, Union
+from typing import Dict, FrozenSet, List, Sequence, Set, Tuple, Type, TypeVar
+from typing import Union
 from typing import cast
 
 
@@ -630,15 +631,23 @@ class ObjectIdentifier(DERType):
         if not content:
             raise ASN1DecodeError('Empty object identifier')
 
-        b = content[0]
-        components = list(divmod(b, 40)) if b < 80 else [2, b-80]
+        components: List[int] = []
 
         component = 0
-        for b in content[1:]:
+        for b in content:
             if b == 0x80 and component == 0:
                 raise ASN1DecodeError('Invalid component')
             elif b < 0x80:
-                components.append(component | b)
+                component |= b
+
+                if components:
+                    components.append(component)
+                elif component < 80:
+                    # The first subidentifier encodes the first two arcs
+                    components.extend(divmod(component, 40))
+                else:
+                    components.extend((2, component - 80))
+
                 component = 0
             else:
                 component |= b & 0x7f
